@@ -41,7 +41,7 @@ def run(ctx):
     ctx.rule = ("for MD5 / SHA-1 x authNoPriv / authPriv x {get, getnext, multiget, set, bulkget, walk (strict and lenient), bulkwalk}: %s of the authentic response plus %d structural "
                 "forgeries (flags 0/1/2/4/6 against the credentials, empty / short / zero / garbage digest, other user, other engine id, wrong localisation, "
                 "plaintext under privacy credentials, ciphertext without the flag, Reports with arbitrary or usmStats bindings, unauthenticated Responses / Reports whose PDU carries "
-                "error-status 2 or 5 (noSuchName is what ends a walk), a fresh client's discovery reply carrying an error-status, the digest copied over a zero run, "
+                "error-status 2 or 5 (noSuchName is what ends a walk), a fresh client's discovery reply carrying an error-status, unauthenticated plaintext with the PDU type of a Trap / Inform / Get / Set, the digest copied over a zero run, "
                 "truncation, stale MAC with another PDU, another request id); the structural forgeries also as the answer to the second of two requests in flight on one "
                 "client, delivered right after the authentic answer to the first was processed; after each attack an unattacked request must still succeed; "
                 "non-trivial = distinct attack that the client refused") % ("every single-bit flip at every position" if not q else "156 sampled single-bit flips (all of the first two octets)", len(drv_atk.STRUCT))
